@@ -346,7 +346,8 @@ func (r *appRun) runBlock(pb plannedBlock, tracked []sdk.AccAddress, rep *Report
 			return
 		}
 		o.txCodes = append(o.txCodes, res.Code)
-		sb.WriteString(fmt.Sprintf("tx %d %s %s %s;", res.Code, res.Codespace, hex.EncodeToString(res.Data), eventsDigest(res.Events)))
+		// (code, data, gas wanted and gas used are what the block's LastResultsHash commits to)
+		sb.WriteString(fmt.Sprintf("tx %d %s %s gas %d/%d %s;", res.Code, res.Codespace, hex.EncodeToString(res.Data), res.GasUsed, res.GasWanted, eventsDigest(res.Events)))
 		if record {
 			rep.Count("tx." + ptx.kind)
 			if res.Code == 0 {
